@@ -56,3 +56,194 @@ def replay(path):
         print("is_address_valid(%s) impl=%s model=%s spec=%s" % (
             oct(a) if a is not None else None, is_address_valid(a), w["model"], spec(a) if a is not None else False))
     return 0
+
+
+# ====================================================================== update() totality
+from . import netops as NO  # noqa: E402
+
+TRUSTED += [
+    "environment model Env/Radio.v + Env/World.v and the Gallina models Drv/RF24.v, Net/Node.v, Net/Mesh.v of rf24.py, "
+    "network/mixins.py, rf24_network.py, rf24_mesh.py (tied to the code by this differential run: every register, FIFO, the "
+    "virtual clock, every driver/node attribute, the queue and frame_buf after every call)",
+]
+
+ROLES = ["routing", "network", "meshnode", "mesh"]
+ADDRS_BY_LEVEL = {0: [0], 1: [0o1, 0o5], 2: [0o21, 0o55], 3: [0o321, 0o555], 4: [0o4321, 0o1234, 0o5555]}
+
+
+def pack_hdr(frm, to, fid, typ, res):
+    return bytes([frm & 255, frm >> 8 & 255, to & 255, to >> 8 & 255, fid & 255, fid >> 8 & 255, typ & 255, res & 255])
+
+
+def dest_classes(r, addr, lvl):
+    """destination address classes relative to the node under test"""
+    out = {"self": addr, "multicast": 0o100, "mc2": 0o10, "mc4": 0o1000, "default": 0o4444,
+           "invalid-digit": r.choice([0o7, 0o60, 0o106, 0o6000]), "too-long": r.choice([0o11111, 0o111111, 0o54321]),
+           "other-branch": r.choice([0o2, 0o13, 0o224, 0o3555])}
+    if lvl < 4:
+        d = r.randrange(1, 6)
+        out["child"] = addr | (d << (3 * lvl))
+    if lvl < 3:
+        out["descendant"] = addr | (r.randrange(1, 6) << (3 * lvl)) | (r.randrange(1, 6) << (3 * (lvl + 1)))
+    if lvl > 0:
+        out["parent"] = addr & ((1 << (3 * (lvl - 1))) - 1)
+    return out
+
+
+def gen_update_case(r, tier):
+    role = r.choice(ROLES)
+    if role in ("routing", "network"):
+        lvl = r.randrange(5)
+        addr = r.choice(ADDRS_BY_LEVEL[lvl])
+        specs = [(0, role, addr)]
+    elif role == "meshnode":
+        specs = [(0, "meshnode", r.choice([3, 200]))]
+        addr, lvl = 0o4444, 4
+    else:
+        specs = [(0, "mesh", 0)]
+        addr, lvl = 0, 0
+    ops = [("timeouts", r.choice([1, 2, 3]), r.choice([1, 3, 6]))]
+    if role == "meshnode" and r.random() < 0.5:
+        # a connected mesh node: give it an address the way renew_address() would
+        lvl = r.randrange(1, 5)
+        addr = r.choice(ADDRS_BY_LEVEL[lvl])
+        ops.append(("node_address_begin", addr))
+    if role == "mesh" and r.random() < 0.7:
+        for _ in range(r.randrange(1, 6)):
+            ops.append(("set_address", r.randrange(1, 256), r.choice([0o1, 0o2, 0o3, 0o4, 0o5, 0o15, 0o25]), False))
+    if r.random() < 0.3:
+        ops.append(("allow_multicast=", False))
+    if r.random() < 0.3:
+        ops.append(("multicast_relay=", True))
+    if r.random() < 0.2:
+        ops.append(("fragmentation=", False))
+    if r.random() < 0.2:
+        ops.append(("ret_sys_msg=", r.random() < 0.5))
+    frames = []
+    table = [(op[1], op[2]) for op in ops if op[0] == "set_address"]
+    for _ in range(r.randrange(1, 5)):
+        x = r.random()
+        if role == "mesh" and r.random() < 0.5:
+            # mesh protocol traffic addressed to the master
+            typ = r.choice([195, 196, 197, 198])
+            frm = r.choice([a for _i, a in table] + [0o4444, 0o1, 0o3, 0o23]) if table else r.choice([0o4444, 0o1, 0o23])
+            res = r.choice([i for i, _a in table] + [0, 7, 255]) if table else r.choice([0, 7])
+            if typ == 196:
+                body = r.choice([b"", bytes([r.choice([i for i, _a in table] + [9])]) if table else b"\x09", b"\x00"])
+            elif typ == 198:
+                a = r.choice([a for _i, a in table] + [0o44]) if table else 0o44
+                body = r.choice([b"", b"\x05", bytes([a & 255, a >> 8]), b"\x00\x00"])
+            else:
+                body = b""
+            payload = pack_hdr(frm, 0, r.randrange(65536), typ, res) + body
+            frames.append(("mesh-protocol-%d" % typ, payload))
+            continue
+        if x < 0.12:
+            payload = bytes(r.randrange(256) for _ in range(r.randrange(0, 33)))
+            kind = "random-bytes"
+        else:
+            dc = dest_classes(r, addr, lvl)
+            cls = r.choice(sorted(dc))
+            to = dc[cls]
+            oc = r.random()
+            frm = (r.choice([0o1, 0o2, 0o34, 0o555, 0o4321, 0]) if oc < 0.6 else 0o4444 if oc < 0.75 else addr if oc < 0.85
+                   else r.choice([0o7, 0o70, 0o11111, 0xFFFF, 0o6001]))
+            typ = r.choice([r.randrange(256), r.randrange(256), 128, 130, 131, 148, 149, 150, 193, 194, 195, 196, 197, 198, 65, 0])
+            res = r.choice([0, 0, 1, 2, 3, 131, 255, r.randrange(256)])
+            n = r.choice([0, 0, 1, 2, 3, 8, 23, 24])
+            payload = pack_hdr(frm, to, r.randrange(65536), typ, res) + bytes(r.randrange(256) for _ in range(n))
+            if r.random() < 0.08:
+                payload = payload[: r.randrange(0, 8)]
+            kind = "to-" + cls
+        frames.append((kind, payload))
+    for kind, payload in frames:
+        ops.append(("inject", 0, r.choice([0, 1, 1, 2, 5]), payload))
+        if r.random() < 0.75:
+            ops += [("update",), ("air",)]
+    ops += [("update",), ("air",), ("update",), ("air",)]
+    return specs, ops, {"role": role, "addr": addr, "frames": [(k, p.hex()) for k, p in frames]}
+
+
+class UpdateChecker:
+    def start(self, run, snaps):
+        self.pending = []  # payloads injected since the last update()
+        self.last_update = None
+
+    def step(self, k, cur, op, res, prev, snaps, obj, log):
+        if op[0] == "update":
+            if res == [9]:
+                return ("C15/update-does-not-terminate", "update() polled the radio more than 400000 times")
+            if res[0] != 0:
+                e = NO.R.LAST_EXC[0]
+                return ("C15/update-raised-%s" % type(e).__name__,
+                        "%s: %s; frames injected before this call: %s" % (type(e).__name__, e, [p.hex() for p in self.pending]))
+            self.last_update = (list(self.pending), len(obj.queue._queue))
+            self.pending = []
+        return None
+
+    def note_inject(self, payload):
+        self.pending.append(payload)
+
+    def air(self, k, log):
+        if self.last_update is None:
+            return None
+        frames, _qlen = self.last_update
+        self.last_update = None
+        for e in log:
+            d = e["data"]
+            if len(d) < 8:
+                return ("C15/transmitted-garbage", "a %d-byte payload was put on the air: %s" % (len(d), d.hex()))
+            to = d[2] | d[3] << 8
+            frm = d[0] | d[1] << 8
+            if d in frames:
+                if not (spec(to) and spec(frm)):
+                    return ("C15/forwarded-frame-with-invalid-address", d.hex())
+                continue
+            if not (spec(to) and spec(frm)):
+                return ("C15/transmitted-frame-with-invalid-address", d.hex())
+            if d[6] not in (193, 194, 195, 128, 196, 198) and d not in frames:
+                # relayed frames may have had to/from rewritten (address request / response relays)
+                if not any(d[4:] == f[4:] for f in frames if len(f) >= 8):
+                    return ("C15/transmitted-frame-that-is-neither-forward-nor-documented-reply", d.hex())
+        return None
+
+
+def run_update(rep, model, tier, seed):
+    r = common.rng(seed, "c15u")
+    n = 300 if tier == "quick" else 8000
+    for _ in range(n):
+        specs, ops, meta = gen_update_case(r, tier)
+        # "node_address_begin": mesh nodes get their address through renew_address(); in single-node runs it is
+        # set through the NetworkMixin._begin used by renew_address (no public setter on mesh classes)
+        ops2 = [("node_address=", op[1]) if op[0] == "node_address_begin" else op for op in ops]
+        chk = UpdateChecker()
+        # let the checker see injected payloads
+        orig_step = chk.step
+        injected = [op[3] for op in ops2 if op[0] == "inject"]
+        it = iter(ops2)
+
+        def step(k, cur, op, res, prev, snaps, obj, log, ops2=ops2, chk=chk, orig_step=orig_step):
+            # payloads injected between the previous API call and this one
+            # every payload injected so far may still sit in the RX FIFO (update() returns early on
+            # some frame types), so all of them count as "received"
+            chk.pending = [o[3] for o in ops2[:k] if o[0] == "inject"]
+            return orig_step(k, cur, op, res, prev, snaps, obj, log)
+
+        chk.step = step
+        NO.check_case(rep, model, [True], specs, ops2, chk, "update", nontrivial=True)
+        rep.count("role " + meta["role"])
+        for kd, _p in meta["frames"]:
+            rep.count("frame " + kd)
+
+
+_run_valid = run
+
+
+def run(rep, model, tier, seed):  # noqa: F811
+    _run_valid(rep, model, tier, seed)
+    rep.rule += ("; update(): single nodes of every role (routing-only, network, unconnected/connected mesh node, mesh master "
+                 "with a table) at every level with frames injected into the RX FIFO over type x length x destination class "
+                 "x origin class incl. truncated and random byte strings, then update(); model == implementation on every "
+                 "observable and the checker judges no-raise / termination / nothing-transmitted-for-dropped-frames")
+    run_update(rep, model, tier, seed)
+    rep.extra["also_sampled_only"] = True
